@@ -277,7 +277,7 @@ def bounded_masks_instance():
     from pb_bss.extraction import mask_module as mm
 
     def make(B):
-        return {'rank': B.choose('rank', [2, 3, 4]), 'fn': B.choose('fn', ['binary', 'wiener', 'ratio', 'amplitude', 'complex', 'phase', 'quantile', 'lorenz']),
+        return {'rank': B.choose('rank', [2, 3, 4]), 'fn': B.choose('fn', ['binary', 'wiener', 'ratio', 'amplitude', 'complex', 'phase', 'quantile', 'lorenz', 'lorenz-options', 'quantile-options']),
                 'seed': B.choose('seed', list(range(2000))), 'ties': B.choose('ties', [False, True]), 'neg': B.choose('neg', [False, True]),
                 'd': B.given('d', np.zeros(1))}
 
@@ -307,6 +307,44 @@ def bounded_masks_instance():
             x = rng.normal(size=(3, rng.randint(8, 40))) + 1j * rng.normal(size=(3, 1))
             q = float(rng.choice([0.1, 0.25, -0.9, -0.5, 0.5]))
             res.update(s=x, q=q, out=mm.quantile_mask(x, quantile=q, axis=-1))
+        elif fn == 'lorenz-options':
+            # sensor pooling, keepdims, one or two pooled sample axes at arbitrary positions, leading independent axes
+            shp = [int(rng.randint(2, 4)), int(rng.randint(2, 4)), int(rng.randint(3, 6)), int(rng.randint(3, 6))]
+            x = rng.normal(size=shp) + 1j * rng.normal(size=shp)
+            if inp['ties']:
+                x = rng.randint(-2, 3, size=shp).astype(float) + 0j
+                x[..., 0, 0] = 2.0
+            sen = None if rng.rand() < 0.3 else int(rng.randint(0, 2))
+            cand = [a for a in range(4) if a != sen]
+            nax = int(rng.randint(1, 3))
+            ax = tuple(int(a) for a in rng.choice(cand, size=nax, replace=False))
+            if inp['neg']:
+                ax = tuple(a - 4 for a in ax)
+                sen = None if sen is None else sen - 4
+            keep = bool(rng.rand() < 0.5)
+            fr = float(rng.choice([0.9, 0.5, 0.7]))
+            axis_arg = ax if (len(ax) > 1 or rng.rand() < 0.5) else ax[0]
+            # precondition of the mask: in no independent slice a single point carries the Lorenz fraction of the power
+            Pp = np.abs(x) ** 2
+            if sen is not None:
+                Pp = Pp.sum(sen % 4, keepdims=True)
+            axp = tuple(a % 4 for a in ax)
+            if np.any(Pp.max(axis=axp) >= fr * Pp.sum(axis=axp)):
+                fr = 0.98
+            if np.any(Pp.max(axis=axp) >= fr * Pp.sum(axis=axp)):
+                return {'fn': 'skip', 's': x, 'out': np.zeros(1)}
+            res.update(s=x, frac=fr, sen=sen, ax=ax, keep=keep, out=mm.lorenz_mask(x, sensor_axis=sen, axis=axis_arg, lorenz_fraction=fr, keepdims=keep))
+        elif fn == 'quantile-options':
+            shp = [int(rng.randint(2, 4)), int(rng.randint(4, 9)), int(rng.randint(4, 9))]
+            x = rng.normal(size=shp) + 1j * rng.normal(size=shp)
+            nax = int(rng.randint(1, 3))
+            ax = tuple(int(a) for a in rng.choice(3, size=nax, replace=False))
+            if inp['neg']:
+                ax = tuple(a - 3 for a in ax)
+            qs = [float(q) for q in rng.choice([0.1, 0.25, -0.9, -0.5, 0.5, -0.25], size=int(rng.randint(1, 4)), replace=False)]
+            q_arg = tuple(qs) if (len(qs) > 1 or rng.rand() < 0.5) else qs[0]
+            axis_arg = ax if (len(ax) > 1 or rng.rand() < 0.5) else ax[0]
+            res.update(s=x, qs=qs, q_is_seq=isinstance(q_arg, tuple), ax=ax, out=mm.quantile_mask(x, quantile=q_arg, axis=axis_arg))
         else:
             x = rng.normal(size=(rng.randint(8, 20), rng.randint(2, 6))) + 1j * rng.normal(size=(1, 1))
             if inp['ties']:
@@ -319,6 +357,9 @@ def bounded_masks_instance():
 
     def ensures(sp, inp, out):
         fn, s, o = out['fn'], out['s'], np.asarray(out['out'])
+        if fn == 'skip':
+            yield 'not-applicable (a single point carries the Lorenz fraction)', True
+            return
         if fn in ('binary', 'wiener'):
             src, sen, keep = out['src'], out['sen'], out['keep']
             P = s.real ** 2 + s.imag ** 2          # exact on integer-valued ties (np.abs()**2 rounds)
@@ -340,6 +381,58 @@ def bounded_masks_instance():
                        'complex': s / y, 'phase': np.real(s * np.conj(y)) / (np.abs(y) * (np.abs(y) + EPS))}[fn]
             ok = np.isfinite(exp)
             yield 'matches-definition[%s]' % fn, bool(exp.shape == o.shape and np.allclose(o[ok], exp[ok], rtol=1e-7, atol=1e-10))
+        elif fn == 'lorenz-options':
+            # loop-level transcription of the definition: per independent index, points strictly stronger than the weakest of
+            # the strongest points whose cumulative share of the (sensor-pooled) power stays below the fraction
+            P = np.abs(s) ** 2
+            sen, ax, keep = out['sen'], tuple(a % s.ndim for a in out['ax']), out['keep']
+            if sen is not None:
+                P = P.sum(sen % s.ndim, keepdims=True)
+            exp = np.empty(P.shape)
+            rest = [a for a in range(P.ndim) if a not in ax]
+            ok_def = True
+            for idx in np.ndindex(*[P.shape[a] for a in rest]):
+                sl = [slice(None)] * P.ndim
+                for a, i in zip(rest, idx):
+                    sl[a] = i
+                v = P[tuple(sl)]
+                srt = np.sort(v.reshape(-1))[::-1]
+                cum = np.cumsum(srt) / np.sum(srt)
+                sel = srt[cum < out['frac']]
+                if sel.size == 0:
+                    ok_def = False
+                    break
+                exp[tuple(sl)] = np.where(v > sel.min(), 0.5 + 0.999 * 0.5, 0.5 - 0.999 * 0.5)
+            if ok_def:
+                if sen is not None and not keep:
+                    exp = np.squeeze(exp, sen % s.ndim)
+                yield 'matches-definition[lorenz-options]', bool(exp.shape == o.shape and np.allclose(o, exp))
+        elif fn == 'quantile-options':
+            mag = np.abs(s)
+            ax = tuple(a % s.ndim for a in out['ax'])
+            rest = [a for a in range(s.ndim) if a not in ax]
+            exps, margins = [], []
+            for q in out['qs']:
+                exp = np.empty(mag.shape)
+                margin = np.empty(mag.shape, dtype=bool)
+                for idx in np.ndindex(*[mag.shape[a] for a in rest]):
+                    sl = [slice(None)] * mag.ndim
+                    for a, i in zip(rest, idx):
+                        sl[a] = i
+                    v = mag[tuple(sl)]
+                    srt = np.sort(v.reshape(-1))
+                    n = srt.size
+                    pos = (n - 1) * ((1 - q) if q >= 0 else abs(q))
+                    i0 = int(np.floor(pos))
+                    i1 = min(i0 + 1, n - 1)
+                    thr = srt[i0] + (srt[i1] - srt[i0]) * (pos - i0)
+                    high = (v > thr) if q >= 0 else (v < thr)
+                    exp[tuple(sl)] = np.where(high, 0.5 + 0.999 * 0.5, 0.5 - 0.999 * 0.5)
+                    margin[tuple(sl)] = np.abs(v - thr) > 1e-9
+                exps.append(exp)
+                margins.append(margin)
+            exp, margin = (np.stack(exps), np.stack(margins)) if out['q_is_seq'] else (exps[0], margins[0])
+            yield 'matches-definition[quantile-options]', bool(exp.shape == o.shape and np.allclose(o[margin], exp[margin]))
         elif fn == 'quantile':
             q = out['q']
             mag = np.abs(s)
